@@ -8,6 +8,8 @@ import tempfile
 
 import numpy as np
 
+from sim import executor as sx
+
 from sim.core import Violation, canon, h64
 from sim.snap import norm, norm_list, snap_frame, first_diff, dt
 from worlds.base import WorldBase, Ent, SimulatedFailure, enc, dec, call
@@ -156,21 +158,30 @@ class StoreWorld(WorldBase):
         cfgmap = fmt != 'zip_pickle' and ch.chance(0.5)
         pool = LABELS_EXT if (fmt != 'sqlite' and ch.chance(0.15)) else LABELS
         labels = pool[:n] if ch.chance(0.5) else ch.sample(pool, n)
+        int_labels = fmt != 'zip_pickle' and ch.chance(0.12)
+        if int_labels:
+            # labels that are not strings, stored through a label encoder / decoder
+            labels = ch.sample([10, 20, 30, 40, 50, 60], n)
         frames = []
         for lab in labels:
             idepth = ch.choice([1, 1, 2]) if (cfgmap or fmt == 'zip_pickle') else 1
             cdepth = ch.choice([1, 1, 1, 2]) if (cfgmap or fmt == 'zip_pickle') else 1
             frames.append(gen_frame_spec(ch, lab, fmt, idepth, cdepth))
+            if cfgmap and idepth == 1 and len(frames[-1]['cols']) >= 2 and ch.chance(0.25):
+                # a per-label configuration that differs from the default in what is *written*: no index column
+                frames[-1]['noindex'] = True
+                frames[-1]['index'] = list(range(len(frames[-1]['index'])))
         if not cfgmap and fmt != 'zip_pickle':
             d = ch.choice([1, 1, 2])
             c = ch.choice([1, 1, 2])
             frames = [gen_frame_spec(ch, lab, fmt, d, c) for lab in labels]
+        workers = ch.choice([None, None, None, 2, 3]) if fmt in ('zip_csv', 'zip_tsv') else None
         mp = ch.choice([None, 1, 1, 2, 3, n, max(1, n - 1)])
         if mp is not None:
             mp = max(1, min(mp, n))
         return {
             'steps': ch.randint(3, 40 if big else 30),
-            'fmt': fmt, 'frames': frames, 'cfgmap': cfgmap, 'max_persist': mp,
+            'fmt': fmt, 'frames': frames, 'cfgmap': cfgmap, 'max_persist': mp, 'workers': workers, 'int_labels': int_labels,
             'faults': ch.chance(0.5), 'p_fs': ch.choice([0.05, 0.1, 0.2]),
             'alloc_cap': ch.choice([4, 1024]),
             'pool_max': ch.randint(2, 4),
@@ -192,6 +203,7 @@ class StoreWorld(WorldBase):
         self.armed = None
         self._orig_getmtime = os.path.getmtime
         self._orig_exists = os.path.exists
+        self._saved_executors = sx.install() if self.config.get('workers') else []
         cfg = self.config
         fid = 0
         f = SimFile(os.path.join(self.dir, 'store0' + EXT[cfg['fmt']]), cfg['fmt'])
@@ -209,6 +221,7 @@ class StoreWorld(WorldBase):
         self._open_bus(fid, cfg['max_persist'], h=None, op={'op': 'setup'})
 
     def teardown(self):
+        sx.uninstall(getattr(self, '_saved_executors', []))
         os.path.getmtime = self._orig_getmtime
         os.path.exists = self._orig_exists
         shutil.rmtree(self.dir, ignore_errors=True)
@@ -228,11 +241,22 @@ class StoreWorld(WorldBase):
     def _store_config(self, specs, cfgmap, fmt):
         sf = self.sf
         if fmt == 'zip_pickle':
-            return None
+            return sf.StoreConfig(label_encoder=str, label_decoder=int) if self.config.get('int_labels') else None
+        wk = {}
+        k = self.config.get('workers')
+        if k and fmt in ('zip_csv', 'zip_tsv'):
+            # multi-worker reading and writing of the zipped store (on the simulated executor): part of the same promise
+            wk = {'read_max_workers': k, 'read_chunksize': 1 + k % 2, 'write_max_workers': k, 'write_chunksize': 1 + k % 2}
+        if self.config.get('int_labels'):
+            wk.update(label_encoder=str, label_decoder=int)
         if cfgmap:
-            return sf.StoreConfigMap({s['name']: sf.StoreConfig(index_depth=s['idepth'], columns_depth=s['cdepth']) for s in specs})
+            def one(s):
+                if s.get('noindex'):
+                    return sf.StoreConfig(index_depth=0, include_index=False, columns_depth=s['cdepth'], **wk)
+                return sf.StoreConfig(index_depth=s['idepth'], columns_depth=s['cdepth'], **wk)
+            return sf.StoreConfigMap({s['name']: one(s) for s in specs}, default=sf.StoreConfig(**wk))
         s = specs[0]
-        return sf.StoreConfig(index_depth=s['idepth'], columns_depth=s['cdepth'])
+        return sf.StoreConfig(index_depth=s['idepth'], columns_depth=s['cdepth'], **wk)
 
     def tick(self, d=1):
         self.clock += d
@@ -252,10 +276,20 @@ class StoreWorld(WorldBase):
         tmp = f.path + '.tmp' + EXT[f.fmt]
         if os.path.exists(tmp):
             os.remove(tmp)
-        if f.fmt == 'zip_pickle':
-            bus.to_zip_pickle(tmp)
-        else:
-            getattr(bus, 'to_' + f.fmt)(tmp, config=f.cfg)
+        own_sim = self.config.get('workers') and sx.CURRENT['sim'] is None
+        if own_sim:
+            # the harness's own writing of file contents: a fixed (first-in first-out) schedule, not part of the run's decisions
+            from sim.core import Decider
+            import collections
+            sx.CURRENT['sim'] = sx.PoolSim(Decider(recorded=[]), collections.Counter(), p_early=0.0)
+        try:
+            if f.fmt == 'zip_pickle' and f.cfg is None:
+                bus.to_zip_pickle(tmp)
+            else:
+                getattr(bus, 'to_' + f.fmt)(tmp, config=f.cfg)
+        finally:
+            if own_sim:
+                sx.CURRENT['sim'] = None
         with open(tmp, 'rb') as fh:
             f.contents[tag] = fh.read()
         os.remove(tmp)
@@ -271,7 +305,7 @@ class StoreWorld(WorldBase):
         f = self.files[fid]
         site = f'Bus.from_{f.fmt}'
         kw = {'max_persist': mp}
-        if f.fmt != 'zip_pickle':
+        if f.fmt != 'zip_pickle' or f.cfg is not None:
             kw['config'] = f.cfg
         st, bus = call(getattr(sf.Bus, 'from_' + f.fmt), f.path, **kw)
         if st == 'raise':
@@ -407,7 +441,7 @@ class StoreWorld(WorldBase):
         else:
             a = ch.randint(0, n - 1)
             key = {'s': [a, ch.randint(a + 1, n)]}
-        return {'op': 'iloc', 'h': h, 'key': key, 'out': self.next_h}
+        return {'op': 'iloc', 'h': h, 'key': key, 'out': self.next_h, 'np': ch.chance(0.3)}
 
     def gen_status(self, ch, buses, its):
         return {'op': 'status', 'h': self._pick_bus(ch, buses),
@@ -478,7 +512,16 @@ class StoreWorld(WorldBase):
         self.step_no += 1
         self.opstat(op['op'])
         self._current = None
-        return getattr(self, 'do_' + op['op'])(op, dec_)
+        if self.config.get('workers'):
+            sx.CURRENT['sim'] = sx.PoolSim(dec_, self.stats, p_early=0.3)
+        try:
+            return getattr(self, 'do_' + op['op'])(op, dec_)
+        finally:
+            sim = sx.CURRENT['sim']
+            if sim is not None and sim.completions:
+                self.stats['pool:tasks'] += sim.completions
+                self.probe('store-read-or-written-by-several-workers')
+            sx.CURRENT['sim'] = None
 
     def quarantine(self, op):
         for k in ('h', 'out', 'it'):
@@ -839,6 +882,9 @@ class StoreWorld(WorldBase):
         if not sel:
             return 'skip'
         site = f'Bus.iloc({kind})'
+        if op.get('np'):
+            # positions as NumPy integers / arrays, as they come out of np.arange, argsort or a loop over positions
+            k = np.int64(k) if kind == 'int' else np.array(k, dtype=np.int64) if kind == 'list' else k
         if kind == 'int':
             bus = e.obj
 
@@ -1109,31 +1155,32 @@ class StoreWorld(WorldBase):
             if cform != 'map' and all(s['idepth'] == 1 and s['cdepth'] == 1 for s in specs):
                 # other legitimate forms of the same configuration: a bare StoreConfig, a map that only has a default,
                 # and one that differs from the Bus's own configuration in what is written (no index column)
+                lk = {'label_encoder': str, 'label_decoder': int} if self.config.get('int_labels') else {}
                 if cform == 'bare':
-                    cfg = sf.StoreConfig(index_depth=1, columns_depth=1)
+                    cfg = sf.StoreConfig(index_depth=1, columns_depth=1, **lk)
                 elif cform == 'default':
-                    cfg = sf.StoreConfigMap(default=sf.StoreConfig(index_depth=1, columns_depth=1))
+                    cfg = sf.StoreConfigMap(default=sf.StoreConfig(index_depth=1, columns_depth=1, **lk))
                 elif any(len(s['cols']) < 2 for s in specs):
                     # a delimited file with a single column and no index column is outside what from_delimited
                     # parses in this environment (format envelope, C16 territory; DESIGN 9)
                     cform = 'map'
                 else:
-                    cfg = sf.StoreConfigMap(default=sf.StoreConfig(include_index=False, index_depth=0, columns_depth=1))
+                    cfg = sf.StoreConfigMap(default=sf.StoreConfig(include_index=False, index_depth=0, columns_depth=1, **lk))
                     specs = [dict(s, index=list(range(len(s['index'])))) for s in specs]
                 self.stats['export-config:' + cform] += 1
             if fmt == 'sqlite' and any(s['cdepth'] == 1 and any(not isinstance(c, str) for c in s['columns']) for s in specs):
                 return 'skip'
         else:
-            cfg = None
+            cfg = self._store_config(specs, False, fmt)
         nf = SimFile(os.path.join(self.dir, f'store{op["fid"]}' + EXT[fmt]), fmt)
         nf.labels = list(labs)
         nf.cfg = cfg
-        nf.cfgmap = cfg is not None
+        nf.cfgmap = cfg is not None and fmt != 'zip_pickle'
         nf.specs['orig'] = {s['name']: s for s in specs}
         nf.specs['alt'] = {s['name']: alt_spec(s) for s in specs}
 
         def fn():
-            if fmt == 'zip_pickle':
+            if fmt == 'zip_pickle' and cfg is None:
                 bus.to_zip_pickle(nf.path)
             else:
                 getattr(bus, 'to_' + fmt)(nf.path, config=cfg)
